@@ -230,6 +230,20 @@ def check_refusals(rep):
     rep.case('shared boundary')
     if common.outcome(zx.Diagram.from_pyzx, g) != ('exc', ValueError):
         rep.fail('C17:refuses.shared_boundary', 'a vertex that is both input and output is accepted', 'shared')
+    # every choice of the shared vertex (in particular vertex number 0), of its place in the two lists and of the order
+    for shared in (a, b):
+        other = b if shared == a else a
+        for ins, outs in (([shared], [shared, other]), ([shared, other], [shared]), ([other, shared], [shared]),
+                          ([shared], [other, shared]), ([shared], [shared])):
+            g2 = adapters.OldGraph()
+            a2, b2, s2 = g2.add_vertex(VT.BOUNDARY), g2.add_vertex(VT.BOUNDARY), g2.add_vertex(VT.Z)
+            g2.add_edge((a2, s2)); g2.add_edge((s2, b2))
+            g2.inputs, g2.outputs = list(ins), list(outs)
+            rep.case('shared boundary %r %r' % (ins, outs))
+            got = common.outcome(zx.Diagram.from_pyzx, g2)
+            if got != ('exc', ValueError):
+                rep.fail('C17:refuses.shared_boundary', 'vertex %d listed both as input and as output is accepted: %r' % (shared, got),
+                         'inputs=%r outputs=%r' % (ins, outs))
     rep.case('non-zx box')
     from discopy.quantum import gates
     if common.outcome(zx.Diagram.to_pyzx, gates.H) != ('exc', TypeError):
